@@ -101,6 +101,17 @@ fn base_images() -> Vec<(String, Built)> {
     add("b64-align8", Spec { note_align: 8, ..d.clone() });
     add("b64-id20", Spec { build_id: (100..120).collect(), ..d.clone() });
     add("b64-id8", Spec { build_id: (1..=8).collect(), ..d.clone() });
+    // identifier lengths around the 16-byte GUID and the usual 20-byte SHA-1: 1, 3, 15, 16, 17, 32 (SHA-256), 64
+    for n in [1usize, 3, 15, 16, 17, 32, 64] {
+        add(&format!("b64-id{n}"), Spec { build_id: (0..n).map(|i| (0x30 + 7 * i) as u8).collect(), ..d.clone() });
+    }
+    add("b32be-id32", Spec { is64: false, be: true, build_id: (0..32).map(|i| (0xa0 + i) as u8).collect(), ..d.clone() });
+    add("b64-id16-no-ptnote", Spec { pt_note: false, build_id: (0..16).map(|i| (0x11 * (i % 15 + 1)) as u8).collect(), ..d.clone() });
+    // SONAME shapes: one character, with spaces, non-ASCII, empty
+    add("b64-soname-1", Spec { soname: Some("l".into()), ..d.clone() });
+    add("b64-soname-space", Spec { soname: Some("lib with space.so.1".into()), ..d.clone() });
+    add("b64-soname-nonascii", Spec { soname: Some("lib\u{e9}\u{1f980}.so".into()), ..d.clone() });
+    add("b64-soname-empty", Spec { soname: Some(String::new()), ..d.clone() });
     add("b64-longsoname", Spec { soname: Some("libwith-a-rather-long-name_and.some-dots.so.12.34.56".into()), ..d.clone() });
     add("b64-nonpie", Spec { vbase: 0x40_0000, ..d.clone() });
     add("b64-split-load", Spec { split_load_delta: 0x3000, ..d.clone() });
